@@ -159,7 +159,9 @@ fn deep_docs() -> &'static Vec<String> {
                 ifs.push_str("END_IF;\n");
             }
             ifs.push_str("END_PROGRAM\n");
-            for text in [parens, ifs] {
+            // a flat chain of d + 1 operands: no nesting at all, but a tree (and a recursion) d deep
+            let chain = format!("PROGRAM p\nVAR\nx : INT;\nEND_VAR\nx := {}x;\nEND_PROGRAM\n", "x + ".repeat(d));
+            for text in [parens, ifs, chain] {
                 let dir = Scratch::new("c12deep");
                 let p = dir.write("deep.st", text.as_bytes()).to_string_lossy().to_string();
                 let out = run_cli(&["check".to_string(), p], None);
@@ -208,6 +210,12 @@ pub fn gen_script(t: &mut Tape, gates: &Gates, max_len: usize) -> Script {
     // texts that end too early, with and without trailing blank space, and every text also with its
     // trailing blank space removed / extended (a document "equal up to trailing blanks" is another
     // document: diagnostics at the end of input move)
+    // line ends of every kind in every place: a lone carriage return in the middle, as the very last
+    // character, as the only character; a text that is nothing but line ends
+    pool.push("PROGRAM p\rVAR\rx : INT;\rEND_VAR\rEND_PROGRAM\r".into());
+    pool.push("PROGRAM p\nVAR\nx : INT;\nEND_VAR\nEND_PROGRAM\n\r".into());
+    pool.push("\r".into());
+    pool.push("\n\r\n\r".into());
     pool.push("PROGRAM p\nVAR\nx : INT;\n\n\n".into());
     pool.push("PROGRAM p\nVAR\nx : INT;\nEND_VAR\nx := 1;\n   \n\t\n".into());
     // deeply nested documents that `ironplcc check` itself survives (established once per run): the
